@@ -18,31 +18,52 @@ pub fn convert_range_slice(
             to,
             inclusive,
             step,
-        } => Ok(Core::FunctionCall {
-            function: Box::from(Core::Id {
-                lit: String::from(clss::python::RANGE),
-            }),
-            args: vec![
-                convert_node(from, imp, state, ctx)?,
-                if *inclusive {
-                    Core::Add {
-                        left: Box::from(convert_node(to, imp, state, ctx)?),
-                        right: Box::from(Core::Int {
-                            int: String::from("1"),
+        } => {
+            let one = Core::Int {
+                int: String::from("1"),
+            };
+            let step = if let Some(step) = step {
+                convert_node(step, imp, state, ctx)?
+            } else {
+                one.clone()
+            };
+
+            let to = convert_node(to, imp, state, ctx)?;
+            let to = if *inclusive {
+                // The bound itself is included: one further in the direction of the step
+                let (left, right) = (Box::from(to), Box::from(one.clone()));
+                match &step {
+                    Core::Int { .. } => Core::Add { left, right },
+                    Core::SubU { expr } if matches!(**expr, Core::Int { .. }) => {
+                        Core::Sub { left, right }
+                    }
+                    step => Core::Add {
+                        left,
+                        right: Box::from(Core::Ternary {
+                            cond: Box::from(Core::Ge {
+                                left: Box::from(step.clone()),
+                                right: Box::from(Core::Int {
+                                    int: String::from("0"),
+                                }),
+                            }),
+                            then: Box::from(one.clone()),
+                            el: Box::from(Core::SubU {
+                                expr: Box::from(one),
+                            }),
                         }),
-                    }
-                } else {
-                    convert_node(to, imp, state, ctx)?
-                },
-                if let Some(step) = step {
-                    convert_node(step, imp, state, ctx)?
-                } else {
-                    Core::Int {
-                        int: String::from("1"),
-                    }
-                },
-            ],
-        }),
+                    },
+                }
+            } else {
+                to
+            };
+
+            Ok(Core::FunctionCall {
+                function: Box::from(Core::Id {
+                    lit: String::from(clss::python::RANGE),
+                }),
+                args: vec![convert_node(from, imp, state, ctx)?, to, step],
+            })
+        }
         NodeTy::Slice {
             from,
             to,
